@@ -9,6 +9,7 @@ import (
 	"fmt"
 	"testing"
 
+	"github.com/New-JAMneration/JAM-Protocol/PVM"
 	"github.com/New-JAMneration/JAM-Protocol/internal/types"
 	"github.com/New-JAMneration/JAM-Protocol/internal/zzverif/vlib"
 	"golang.org/x/crypto/blake2b"
@@ -132,6 +133,7 @@ type c32Case struct {
 	Mode    string   `json:"mode,omitempty"`
 	Bundle  int      `json:"bundle,omitempty"`
 	NExp    int      `json:"nexp,omitempty"`
+	Items   []int    `json:"items,omitempty"` // part W: per item 4*exportCount + outcome
 }
 
 func c32Item(c c32Case) (types.WorkItem, types.WorkExecResult) {
@@ -372,6 +374,142 @@ func c32CheckA(r *vlib.Run, c c32Case) {
 	}
 }
 
+
+// ---------- W: WorkReportCompute with a stubbed refine (multi-item assembly, GP 14.11 / 14.16) ----------
+
+const (
+	c32OutOk       = iota // refine ok, returns exactly ExportCount segments
+	c32OutError           // refine panics (and still hands back ExportCount non-zero segments, which must be dropped)
+	c32OutBadCount        // refine ok but returns ExportCount+1 segments -> bad-exports
+	c32OutOversize        // refine ok but its output blows the report output limit -> output-oversize
+)
+
+var c32OutcomeNames = []string{"ok", "error", "bad-export-count", "oversize"}
+
+type c32Refine struct{ items []int }
+
+func c32Segment(item, k int) types.ExportSegment {
+	var s types.ExportSegment
+	for i := 0; i < len(s); i += 53 {
+		s[i] = byte(0x11*(item+1) + k + i)
+	}
+	s[0], s[1], s[types.SegmentSize-1] = byte(item+1), byte(k+1), 0xC3
+	return s
+}
+
+func (c32Refine) Psi_I(p types.WorkPackage, c types.CoreIndex, code types.ByteSequence) PVM.Psi_I_ReturnType {
+	return PVM.Psi_I_ReturnType{WorkExecResult: types.WorkExecResultOk, WorkOutput: []byte{0xA0, 0xA1}, Gas: 5}
+}
+
+func (x c32Refine) RefineInvoke(in PVM.RefineInput) PVM.RefineOutput {
+	j := int(in.WorkItemIndex)
+	ne, oc := x.items[j]/4, x.items[j]%4
+	out := PVM.RefineOutput{WorkResult: types.WorkExecResultOk, RefineOutput: []byte{byte(j), 7, 7}, Gas: types.Gas(100 + j)}
+	n := ne
+	switch oc {
+	case c32OutError:
+		out.WorkResult = types.WorkExecResultPanic
+		out.RefineOutput = nil
+	case c32OutBadCount:
+		n = ne + 1
+	case c32OutOversize:
+		out.RefineOutput = make([]byte, types.WorkReportOutputBlobsMaximumSize+1)
+	}
+	for k := 0; k < n; k++ {
+		out.ExportSegment = append(out.ExportSegment, c32Segment(j, k))
+	}
+	return out
+}
+
+func c32CheckW(r *vlib.Run, c c32Case) {
+	types.SetTinyMode()
+	wp := &types.WorkPackage{AuthCodeHost: 3}
+	var want []types.ExportSegment // GP 14.11: the item's exports if it succeeded, else ExportCount zero segments
+	var wantTypes []string
+	total := 0
+	anyFailWithSlot, laterOkExports := false, false
+	for j, it := range c.Items {
+		ne, oc := it/4, it%4
+		item := types.WorkItem{Service: types.ServiceID(40 + j), ExportCount: types.U16(ne), Payload: types.ByteSequence{byte(j)}, AccumulateGasLimit: types.Gas(9 + j)}
+		item.CodeHash[0] = byte(j + 1)
+		wp.Items = append(wp.Items, item)
+		total += ne
+		for k := 0; k < ne; k++ {
+			if oc == c32OutOk {
+				want = append(want, c32Segment(j, k))
+				if anyFailWithSlot {
+					laterOkExports = true
+				}
+			} else {
+				want = append(want, types.ExportSegment{})
+			}
+		}
+		if oc != c32OutOk && ne > 0 {
+			anyFailWithSlot = true
+		}
+		wantTypes = append(wantTypes, []string{"ok", "panic", "bad-exports", "output-oversize"}[oc])
+	}
+	var names []string
+	for _, it := range c.Items {
+		names = append(names, fmt.Sprintf("%s/e=%d", c32OutcomeNames[it%4], it/4))
+	}
+	desc := fmt.Sprintf("items %v", names)
+	key := fmt.Sprintf("items=%d;failed-slot-before-ok-exports=%v", len(c.Items), laterOkExports)
+	bundle := bytes.Repeat([]byte{0x5B, 1, 2}, 100)
+	var h, pa types.OpaqueHash
+	h[0], pa[0] = 0xAA, 0xBB
+	r.Eval()
+	var rep types.WorkReport
+	var err error
+	p, msg, site := vlib.Guard(func() {
+		rep, err = WorkReportCompute(wp, 1, pa, types.ByteSequence{1}, PVM.ExtrinsicDataMap{}, nil, types.ServiceAccountState{}, append([]byte(nil), bundle...), h, c32Refine{items: c.Items})
+	})
+	r.Transition()
+	r.Class(fmt.Sprintf("W items=%d exports=%d failed-slot-before-ok-exports=%v outcome=%v", len(c.Items), min(total, 3), laterOkExports, map[bool]string{true: "panic", false: "returned"}[p]))
+	if p {
+		r.Violation("work_package.WorkReportCompute", "go-panic", key, fmt.Sprintf("%s: Go panic in %s: %s", desc, site, msg), c)
+		return
+	}
+	if err != nil {
+		r.Violation("work_package.WorkReportCompute", "unexpected-error", key, fmt.Sprintf("%s: %v", desc, err), c)
+		return
+	}
+	leaves := make([][]byte, len(want))
+	for i := range want {
+		leaves[i] = append([]byte(nil), want[i][:]...)
+	}
+	spec := rep.PackageSpec
+	if int(spec.ExportsCount) != total || uint64(spec.Length) != uint64(len(bundle)) || spec.Hash != types.WorkPackageHash(h) {
+		r.Violation("work_package.WorkReportCompute", "wrong-spec-fields", key, fmt.Sprintf("%s: spec hash %x length %d exports count %d, expected %x / %d / %d", desc, spec.Hash[:4], spec.Length, spec.ExportsCount, h[:4], len(bundle), total), c)
+	}
+	if root := c32RefM(leaves); [32]byte(spec.ExportsRoot) != root {
+		r.Violation("work_package.WorkReportCompute", "wrong-exports-root", key, fmt.Sprintf("%s: exports root %x, but M(concatenation over the items of (exports if ok else w_e zero segments)) = %x", desc, spec.ExportsRoot[:8], root[:8]), c)
+	}
+	// the erasure root must commit to the same sequence: differential against the repository's own A on the expected sequence
+	var ref types.WorkPackageSpec
+	if p2, _, _ := vlib.Guard(func() { ref, err = A(h, append([]byte(nil), bundle...), want) }); !p2 && err == nil {
+		r.Transition()
+		if ref.ErasureRoot != spec.ErasureRoot {
+			r.Violation("work_package.WorkReportCompute", "erasure-root-of-other-sequence", key, fmt.Sprintf("%s: erasure root %x differs from A(expected export sequence) = %x", desc, spec.ErasureRoot[:8], ref.ErasureRoot[:8]), c)
+		}
+	}
+	if len(rep.Results) != len(c.Items) {
+		r.Violation("work_package.WorkReportCompute", "wrong-result-count", key, fmt.Sprintf("%s: %d results", desc, len(rep.Results)), c)
+		return
+	}
+	for j, res := range rep.Results {
+		if string(res.Result.Type) != wantTypes[j] {
+			r.Violation("work_package.WorkReportCompute", "wrong-result", "outcome="+c32OutcomeNames[c.Items[j]%4], fmt.Sprintf("%s: item %d result %s, expected %s", desc, j, res.Result.Type, wantTypes[j]), c)
+		}
+		if res.ServiceID != wp.Items[j].Service || uint64(res.RefineLoad.GasUsed) != uint64(100+j) || uint64(res.RefineLoad.Exports) != uint64(c.Items[j]/4) {
+			r.Violation("work_package.WorkReportCompute", "wrong-digest", "outcome="+c32OutcomeNames[c.Items[j]%4], fmt.Sprintf("%s: item %d digest service %d gas %d exports %d", desc, j, res.ServiceID, res.RefineLoad.GasUsed, res.RefineLoad.Exports), c)
+		}
+	}
+	if r.WantSample() && len(c.Items) == 2 && laterOkExports {
+		r.Sample(map[string]interface{}{"part": "W", "items": names, "exports_root": vlib.Hex(spec.ExportsRoot[:]), "exports_count": spec.ExportsCount})
+	}
+}
+
 func TestVerif_C32(t *testing.T) {
 	r := vlib.Start(t, "C32")
 	defer r.Finish()
@@ -380,6 +518,8 @@ func TestVerif_C32(t *testing.T) {
 	if r.IsReplay(&rc) {
 		if rc.Part == "A" {
 			c32CheckA(r, rc)
+		} else if rc.Part == "W" {
+			c32CheckW(r, rc)
 		} else {
 			c32CheckC(r, rc)
 		}
@@ -429,6 +569,17 @@ func TestVerif_C32(t *testing.T) {
 				c32CheckA(r, c32Case{Part: "A", Mode: mode, Bundle: bl, NExp: ne})
 			}
 		}
+	}
+	// W: every sequence of <= 3 items over (export count 0..2) x (4 refine outcomes)
+	for n := 1; n <= 3; n++ {
+		vlib.Sequences(12, n, func(sq []int) {
+			idx++
+			if !r.Mine(idx) {
+				return
+			}
+			r.Space(1)
+			c32CheckW(r, c32Case{Part: "W", Items: append([]int(nil), sq...)})
+		})
 	}
 	if vlib.Pick(r, false, true) {
 		// thorough: 64, 65 exports (second page of the paged proofs)
